@@ -19,5 +19,6 @@ CONF = {
         "no quota label change or resize of an assigned pod, no re-parenting) - the histories the statement quantifies over",
         "all groups declare {cpu, memory}; quota hook plugins none",
         "runtime quota values are compared in calculator units (milli-CPU)",
+        "min-quota scaling on in half of the segments: scaled mins taken from the logged calculator levels, bounded by the declared mins",
     ],
 }
